@@ -56,6 +56,33 @@ func main() {
 		dumpFacts(c, *dump)
 		return
 	}
+	if *prop == "all" {
+		// maintainer mode (seed matrix): every property in one process, one RESULT line each
+		var ids []string
+		for id := range props {
+			ids = append(ids, id)
+		}
+		sort.Strings(ids)
+		worst := 0
+		for _, id := range ids {
+			r := newReport(id, *tier)
+			code := func() (code int) {
+				defer func() {
+					if e := recover(); e != nil {
+						fmt.Printf("ANALYSIS-ERROR: %s panicked: %v\n", id, e)
+						code = 2
+					}
+				}()
+				props[id](c, r)
+				return r.finish(*verif, seed)
+			}()
+			fmt.Printf("RESULT %s exit=%d\n", id, code)
+			if code > worst {
+				worst = code
+			}
+		}
+		os.Exit(worst)
+	}
 	fn, ok := props[*prop]
 	if !ok {
 		die(2, "unknown property %q", *prop)
